@@ -14,15 +14,19 @@ QProj(q) == [k \in 1..Len(q) |-> <<q[k].fn, q[k].tn>>]
 RunOk == {t \in Ids : trx'[t].run # P.trx[t].run} = {}
 ClkOk == clk'.run = P.clk.run /\ clk'.links = {P.clk.links[k] : k \in 1..Len(P.clk.links)}
          /\ (clk'.run => clk'.src = P.clk.src)
-QueueOk == {t \in Ids : QProj(trx'[t].q) # P.trx[t].q} = {}
+\* state components the harness could not read from the application (a private attribute renamed or
+\* re-represented) are not compared; what they cause stays visible in replies and forwarded bursts
+Unobs == IF "unobs" \in DOMAIN P THEN {P.unobs[k] : k \in 1..Len(P.unobs)} ELSE {}
+QueueOk == "q" \in Unobs \/ {t \in Ids : QProj(trx'[t].q) # P.trx[t].q} = {}
 HopOk == {t \in Ids : trx'[t].fh # P.trx[t].fh} = {}
-Rest(s) == [f \in (DOMAIN s) \ {"run", "fh", "q", "drop", "muted"} |-> s[f]]
-RestOk == {t \in Ids : Rest(trx'[t]) # Rest(P.trx[t])} = {}
 \* the first state component on which code and specification disagree names the clause, so that
 \* the properties that depend on that component (routing: rx/tx; delivered values: ver, ta, att,
 \* nompwr, frssi, toa, ci) can claim the rejection too
-RestFields == (DOMAIN InitTrx) \ {"run", "fh", "q", "drop", "muted"}
+RestFields == ((DOMAIN InitTrx) \ {"run", "fh", "q", "drop", "muted"}) \ Unobs
 RestDiff == {f \in RestFields : \E t \in Ids : trx'[t][f] # P.trx[t][f]}
+RestOk == RestDiff = {}
+Rest(s) == [f \in RestFields |-> s[f]]
+QSame(a, b) == "q" \in Unobs \/ QProj(a) = b
 RestTag == IF RestDiff = {} THEN "C05.effect" ELSE "C05.effect." \o (CHOOSE f \in RestDiff : TRUE)
 DropOk == {t \in Ids : trx'[t].drop # P.trx[t].drop \/ trx'[t].muted # P.trx[t].muted} = {}
 ProjOk == /\ Tag("C12.running-state", RunOk) /\ Tag("C12.clock-links", ClkOk)
@@ -43,7 +47,7 @@ TCmd ==
   /\ IF ~IsCmd(Ev.raw)
      THEN /\ Tag("C05.no-reply-without-prefix", Ev.outs = <<>> /\ Ev.exc = "")
           /\ UNCHANGED fvars
-          /\ Tag("C05.effect", trx = [t \in Ids |-> [P.trx[t] EXCEPT !.q = trx[t].q]])
+          /\ Tag("C05.effect", \A t \in Ids : \A f \in (DOMAIN InitTrx) \ ({"q"} \cup Unobs) : trx[t][f] = P.trx[t][f])
      ELSE LET toks == Tokens(Ev.raw) IN
           /\ Tag("harness.wellformed-numbers", AllInts(Tail(toks)))
           /\ Cmd(Ev.t, VerbOf(toks[1]), Ints(Tail(toks)))
@@ -72,8 +76,12 @@ ClckOuts == {<<Ev.outs[k].t, Ev.outs[k].port, Ev.outs[k].raw>> : k \in {k \in 1.
 NClck == Cardinality({k \in 1..Len(Ev.outs) : Ev.outs[k].kind = "clck"})
 
 \* band entries the code reported stale
+\* (a tick with a warning the harness could not read as a report about a burst: the reports of that tick
+\* are not judged, the specification drops what must be dropped)
+SUnobs == "sunobs" \in DOMAIN Ev /\ Ev.sunobs
 StaleChoice == {<<t, i>> \in UNION {{<<t, i>> : i \in 1..Len(trx[t].q)} : t \in Ids} :
-                  \E k \in 1..Len(Ev.stales) : Ev.stales[k].t = t /\ Ev.stales[k].fn = trx[t].q[i].fn /\ Ev.stales[k].tn = trx[t].q[i].tn}
+                  (SUnobs /\ MustStale(trx[t].q[i], clk.src))
+                  \/ \E k \in 1..Len(Ev.stales) : Ev.stales[k].t = t /\ Ev.stales[k].fn = trx[t].q[i].fn /\ Ev.stales[k].tn = trx[t].q[i].tn}
 StalesLogged == [k \in 1..Len(Ev.stales) |-> [t |-> Ev.stales[k].t, fn |-> Ev.stales[k].fn, tn |-> Ev.stales[k].tn]]
 
 InWin(x, w) == x >= w[1] /\ x <= w[2]
@@ -124,7 +132,7 @@ TTick ==
   /\ Tag("C14.no-exception", Ev.exc = "")
   /\ Tag("C09.tick-frame-number", clk.run /\ Ev.fn = clk.src)
   /\ Tick(StaleChoice)
-  /\ Tag("C03.stale-report", out'.stale = StalesLogged)
+  /\ Tag("C03.stale-report", SUnobs \/ out'.stale = StalesLogged)
   /\ Tag("C12.clock-indications",
          /\ ClckOuts = {<<lk, wire[lk].ports.clck[2], ClockInd(Ev.fn)>> : lk \in out'.ind}
          /\ NClck = Cardinality(out'.ind))
@@ -156,7 +164,7 @@ TTick ==
    reply, and only the addressed transceiver's tuning / simulation parameters
    may change; the specification continues from the logged values.          *)
 SameAsLogged == {t \in Ids : Rest(trx[t]) # Rest(P.trx[t]) \/ trx[t].run # P.trx[t].run \/ trx[t].fh # P.trx[t].fh
-                               \/ QProj(trx[t].q) # P.trx[t].q \/ trx[t].drop # P.trx[t].drop \/ trx[t].muted # P.trx[t].muted} = {}
+                               \/ ~QSame(trx[t].q, P.trx[t].q) \/ trx[t].drop # P.trx[t].drop \/ trx[t].muted # P.trx[t].muted} = {}
 TGarbage ==
   /\ IsEv("garbage")
   /\ Tag("C14.no-exception", Ev.exc = "")
@@ -174,10 +182,10 @@ TWild ==
   /\ Tag("C14.no-exception", Ev.exc = "")
   /\ Tag("C14.exactly-one-reply", Len(Ev.outs) = 1 /\ Ev.outs[1].kind = "ctrl" /\ Ev.outs[1].t = Ev.t)
   /\ Tag("C14.wild-touches-only-parameters",
-         /\ \A t \in Ids : trx[t].run = P.trx[t].run /\ QProj(trx[t].q) = P.trx[t].q
+         /\ \A t \in Ids : trx[t].run = P.trx[t].run /\ QSame(trx[t].q, P.trx[t].q)
          /\ \A t \in Ids \ {Ev.t} : Rest(trx[t]) = Rest(P.trx[t]) /\ trx[t].fh = P.trx[t].fh /\ trx[t].drop = P.trx[t].drop
          /\ clk.run = P.clk.run)
-  /\ trx' = [trx EXCEPT ![Ev.t] = [f \in DOMAIN trx[Ev.t] |-> IF f \in Tunables \cup {"fh"} THEN P.trx[Ev.t][f] ELSE trx[Ev.t][f]]]
+  /\ trx' = [trx EXCEPT ![Ev.t] = [f \in DOMAIN trx[Ev.t] |-> IF f \in (Tunables \cup {"fh"}) \ Unobs THEN P.trx[Ev.t][f] ELSE trx[Ev.t][f]]]
   /\ out' = NoOut /\ UNCHANGED <<wire, clk>>
   /\ Adv
 
